@@ -175,6 +175,60 @@ func (stubPM) Broadcast(*pb.Message) error                   { return nil }
 func (stubPM) Disconnect(map[uint64]*pb.VpInfo)              {}
 func (stubPM) OrderPeers() map[uint64]*pb.VpInfo             { return map[uint64]*pb.VpInfo{} }
 
+// netPM: one other peer (id 2) that serves the canonical chain of the run's log on GET_BLOCKS
+type netPM struct {
+	stubPM
+	r *raftRun
+}
+
+func (p *netPM) OtherPeers() map[uint64]*peer.AddrInfo { return map[uint64]*peer.AddrInfo{2: {}} }
+func (p *netPM) Send(_ peer_mgr.KeyType, m *pb.Message) (*pb.Message, error) {
+	req := &pb.GetBlocksRequest{}
+	if m.Type != pb.Message_GET_BLOCKS || req.Unmarshal(m.Data) != nil {
+		return nil, fmt.Errorf("unexpected message")
+	}
+	canon := p.r.canon(uint64(len(p.r.log)))
+	resp := &pb.GetBlocksResponse{}
+	for h := req.Start; h <= req.End; h++ {
+		b, ok := canon[h]
+		if !ok {
+			break
+		}
+		resp.Blocks = append(resp.Blocks, &pb.Block{BlockHeader: &pb.BlockHeader{Number: h}, BlockHash: &types.Hash{},
+			Transactions: mkBatch(h, b.Txs).TxList})
+		if h == ^uint64(0) {
+			break
+		}
+	}
+	d, err := resp.Marshal()
+	if err != nil {
+		return nil, err
+	}
+	return &pb.Message{Type: pb.Message_GET_BLOCKS_ACK, Data: d}, nil
+}
+
+// canon: the canonical chain of the first n log entries: height -> block, plus the height reached
+func (r *raftRun) canon(n uint64) map[uint64]Block {
+	out := map[uint64]Block{}
+	c := r.h.Init
+	for i := uint64(0); i < n && i < uint64(len(r.log)); i++ {
+		e := r.log[i]
+		if len(e.Data) == 0 {
+			continue
+		}
+		rb := &raftproto.RequestBatch{}
+		if rb.Unmarshal(e.Data) != nil {
+			continue
+		}
+		if rb.Height == c+1 {
+			c = rb.Height
+			out[c] = toBlock(rb.Height, rb.TxList)
+		}
+	}
+	out[0] = Block{H: c}
+	return out
+}
+
 // ---------------------------------------------------------------------------------- scripted raft.Node
 
 type fakeRaft struct {
@@ -289,7 +343,7 @@ func (r *raftRun) open() error {
 		order.WithRepoRoot(r.dir),
 		order.WithID(id),
 		order.WithNodes(nodes),
-		order.WithPeerManager(stubPM{}),
+		order.WithPeerManager(&netPM{r: r}),
 		order.WithStoragePath(filepath.Join(r.dir, "storage", "order")),
 		order.WithLogger(quiet()),
 		order.WithApplied(chain),
@@ -459,6 +513,37 @@ func (r *raftRun) step(op []interface{}) (Step, error) {
 		}
 		r.sync()
 		st.R = []uint64{lo, hi, app}
+	case "snapin": // ["snapin", k]  the leader sends a snapshot taken at index appliedIndex+k (data: canonical height there)
+		sN := r.node.VerifReadState()
+		idx := sN.AppliedIndex + num(op[1])
+		if idx > uint64(len(r.log)) {
+			idx = uint64(len(r.log))
+		}
+		hh := r.canon(idx)[0].H
+		if idx <= sN.AppliedIndex || idx < sN.RamLast || !(hh > sN.LastExec || (hh == sN.LastExec && r.chain < hh)) {
+			// etcd-raft sends no snapshot to a replica that is not behind it; height <= chain height makes
+			// recoverFromSnapshot wait for ever (see design notes) — not part of the scripted environment
+			st.R = []uint64{9}
+			break
+		}
+		cm := pb.ChainMeta{Height: hh}
+		data, _ := cm.Marshal()
+		rd := raft.Ready{
+			Snapshot:  raftpb.Snapshot{Data: data, Metadata: raftpb.SnapshotMetadata{Index: idx, Term: 1, ConfState: raftpb.ConfState{Nodes: []uint64{sN.ID}}}},
+			HardState: raftpb.HardState{Term: 1, Vote: 1, Commit: idx},
+		}
+		select {
+		case r.fake.readyc <- rd:
+		case <-time.After(5 * time.Second):
+			return st, fmt.Errorf("ready not taken")
+		}
+		select {
+		case <-r.fake.advc:
+		case <-time.After(20 * time.Second):
+			return st, fmt.Errorf("no advance after snapshot")
+		}
+		r.sync()
+		st.R = []uint64{1, idx, hh}
 	case "exec": // the executor takes the next commit event
 		if len(r.queue) == 0 {
 			st.R = []uint64{9}
@@ -1023,10 +1108,13 @@ func main() {
 				rs.Buffer(make([]byte, 1<<20), 1<<28)
 				i := w
 				for rs.Scan() {
-					if i < len(lines) {
-						outs[i] = rs.Text()
+					// libraries under test log to stdout; result lines are JSON objects
+					if t := rs.Text(); len(t) > 0 && t[0] == '{' {
+						if i < len(lines) {
+							outs[i] = t
+						}
+						i += W
 					}
-					i += W
 				}
 				if err := cmd.Wait(); err != nil {
 					errs[w] = err
